@@ -1,5 +1,6 @@
 import Driver.Common
 import CoapVerif.Model.BlockOpt
+import CoapVerif.Model.BlockOptWire
 import CoapVerif.Spec.BlockOpt
 /-! Driver for C19: `model` follows Model/BlockOpt (generated constants), `spec` follows Spec/BlockOpt (RFC only). -/
 namespace Driver.C19
@@ -71,6 +72,17 @@ def digestEnc (spec : Bool) (szx : Nat) (m : Bool) (lo hi : Nat) : UInt64 × UIn
     if (encOut spec szx (n : Int) m).toBool then ok := ok + 1
   return (hf, hn, ok)
 
+/-- RFC 7252 §3.2 "uint": the fewest bytes, big-endian, the empty string for 0 (written from the RFC, not from the code) -/
+def specUintBytes (v : Nat) : List UInt8 :=
+  let rec go (fuel v : Nat) (acc : List UInt8) : List UInt8 :=
+    match fuel with
+    | 0 => acc
+    | fuel + 1 => if v = 0 then acc else go fuel (v / 256) (UInt8.ofNat (v % 256) :: acc)
+  go 8 v []
+
+/-- … and its value: all bytes, big-endian -/
+def specUintValue (bs : List UInt8) : Nat := bs.foldl (fun a b => a * 256 + b.toNat) 0
+
 def handle (spec : Bool) (line : String) : String :=
   match words line with
   | ["dec", v] =>
@@ -87,6 +99,38 @@ def handle (spec : Bool) (line : String) : String :=
       | .ok v => s!"ok {v}"
       | .error e => fmtErr e
     | _, _, _ => "bad-op"
+  | ["wenc", id, _coder, s, n, m] =>
+    -- the block option as a message carries it (Model/BlockOptWire; Props/C19Wire: the coders hand the value bytes on unchanged)
+    match id.toNat?, s.toNat?, parseInt? n, m.toNat? with
+    | some _, some s, some n, some m =>
+      if spec then
+        match Spec.BlockOpt.encode s n (m != 0) with
+        | none => "err"
+        | some v =>
+          let bs := specUintBytes v
+          match Spec.BlockOpt.decode (specUintValue bs) with
+          | some (s', n', m') => s!"ok {toHex bs} {s'} {n'} {if m' then 1 else 0}"
+          | none => s!"sent {toHex bs} err"
+      else
+        match Model.BlockOptWire.toWire s n (m != 0) with
+        | .error e => fmtErr (some e)
+        | .ok bs =>
+          match Model.BlockOptWire.fromWire bs with
+          | .ok (s', n', m') => s!"ok {toHex bs} {s'} {n'} {if m' then 1 else 0}"
+          | .error e => s!"sent {toHex bs} {fmtErr (some e)}"
+    | _, _, _, _ => "bad-op"
+  | ["wdec", id, _coder, h] =>
+    match id.toNat?, parseHex? h with
+    | some _, some bs =>
+      if spec then
+        match Spec.BlockOpt.decode (specUintValue bs) with
+        | some (s, n, m) => s!"ok {s} {n} {if m then 1 else 0}"
+        | none => "err"
+      else
+        match Model.BlockOptWire.fromWire bs with
+        | .ok (s, n, m) => s!"ok {s} {n} {if m then 1 else 0}"
+        | .error e => fmtErr (some e)
+    | _, _ => "bad-op"
   | ["size", s] =>
     match s.toNat? with
     | some s => toString (if spec then Spec.BlockOpt.size s else szxSize s)
